@@ -45,6 +45,9 @@ CHECKS={
  'C18':('runtime monitoring: spec -> swagger generate model -> swagger generate spec -m; keyword-by-keyword comparison of original and scanned definitions',
         'held on the executions observed: every atom x position definition is pushed through both halves of the toolkit and compared on type, format (default-format equivalence), $ref, required, readOnly, bounds, lengths, pattern, enum, uniqueItems, item counts and property names at every nesting context. The (keyword, context) cells that are lost today are listed in known-findings.json; every other cell must be preserved.',
         'generator-added inline definitions are compared through; multipleOf / min,maxProperties informational (outside the statement\'s enumeration)','C18'),
+ 'C11':('runtime monitoring: histories of generate runs / user edits / spec edits on one target directory with the real swagger binary; per-step file snapshots plus the verif file-decision event log; history model as oracle',
+        'held on the executions observed: a catalogue of 2-3-step histories (one per action x prior-state transition, 35 option atoms, 20 classes of user files) and seeded 4-10-step histories: user files are never modified or removed, an existing configure file is never rewritten unless asked, and every file a run writes equals a fresh generation of the same command into an empty directory at the same absolute path.',
+        'fresh generation at the same absolute path (generated files embed relative paths); a real-vs-fresh difference counts only if a second fresh run agrees with the first; leftovers of removed operations not asserted','C11'),
  'C12':('runtime monitoring: diff.Compare executed in child processes over identity variants and pair workloads, panic/crash/watchdog monitor, identity oracle',
         'held on the executions observed: every reference-valid repository fixture and hand-written hostile spec compared with itself and with JSON / YAML / list-shuffled re-serialisations (0 differences, exit 0 required), and several thousand (A,B) pairs for totality (no panic, no fatal error, no watchdog expiry). Exploration, not proof: shapes the corpus does not contain are not covered.',
         'trusts go-openapi/validate v0.24.0 for spec validity and go-openapi/loads for re-serialisation equality; watchdog expiry is inconclusive','C12'),
